@@ -57,6 +57,11 @@
        (or (isDigitC (Str.nth s (+ p 1)))
            (and (or (= (Str.nth s (+ p 1)) 43) (= (Str.nth s (+ p 1)) 45)) (< (+ p 2) (Str.len s)) (isDigitC (Str.nth s (+ p 2)))))))
 (define-fun endsInExp ((s Str) (a Int) (e Int)) Bool (exists ((p Int)) (and (<= a p) (< p e) (expHead s p e))))
+; shape of a decimal number: digits and at most one dot (counted by ndots), optionally followed by an exponent
+(define-fun-rec allDigDot ((s Str) (a Int) (b Int)) Bool (forall ((i Int)) (=> (and (<= a i) (< i b)) (or (isDigitC (Str.nth s i)) (= (Str.nth s i) 46)))))
+(define-fun decShape ((s Str) (a Int) (e Int)) Bool
+  (or (allDigDot s a e) (exists ((p Int)) (and (< a p) (< p e) (allDigDot s a p) (expHead s p e)))))
+(define-fun hexPrefixAt ((s Str) (a Int)) Bool (and (< (+ a 1) (Str.len s)) (= (Str.nth s a) 48) (or (= (Str.nth s (+ a 1)) 120) (= (Str.nth s (+ a 1)) 88))))
 ; bytes that may occur in the text of a number token
 (define-fun numByte ((c Int)) Bool (or (isHexC c) (= c 46) (= c 120) (= c 88) (= c 43) (= c 45)))
 (define-fun-rec allNumBytes ((s Str) (a Int) (b Int)) Bool (forall ((i Int)) (=> (and (<= a i) (< i b)) (numByte (Str.nth s i)))))
@@ -153,6 +158,8 @@
     (=> (= k TokenNumber)
         (and (or (isDigitC (Str.nth q a)) (= (Str.nth q a) 46)) (allNumBytes q a e) (digitEnd q e) (<= (ndots q a e) 1)
              (numBytesOf v) (> (Str.len v) 0)
+             ; shape: 0x hex-digits, or digits with at most one dot and an optional exponent
+             (ite (hexPrefixAt q a) (and (< (+ a 2) e) (allHex q (+ a 2) e)) (decShape q a e))
              ; longest lexeme: an exponent that could follow a decimal number belongs to it
              (or (and (< (+ a 1) (Str.len q)) (= (Str.nth q a) 48) (or (= (Str.nth q (+ a 1)) 120) (= (Str.nth q (+ a 1)) 88)))
                  (endsInExp q a e) (not (expStartsAt q e)))
